@@ -9,7 +9,7 @@ use serde_json::{json, Value};
 pub fn run(args: &Args) {
     let mut tr = Tr::create(&args.out);
     let mut rng = Rng::new(args.seed ^ 0x13);
-    let reps = if args.thorough { 40 } else { 4 };
+    let reps = if args.thorough { 40 } else { 8 };
     let mut cases = 0;
     let mut models = zoo::zoo(args.thorough);
     let nzoo = models.len();
